@@ -89,3 +89,75 @@ contract(M + 'LayerMerger.merge', props=['C14', 'C10'],
                       'BlankImageSource': {'pure': True}},
          loops={0: dict(inv=[], types={'result': 'opaque'}, body_trace=[_layer_ops])},
          trace=[_fast_path_guard, _global_limit_applied])
+
+
+# ---- opaque pruning: WMSSource.is_opaque ---------------------------------------------------------------------------------
+from . import c17_upstream  # noqa  (WMSSource class declaration)
+W = 'mapproxy.source.wms:'
+
+
+def _is_opaque_spec(ex, st, post, result):
+    """is_opaque True => the layer really hides everything below it for this query"""
+    import z3
+    from pyvc.values import eq
+    self_ = post.env['self']
+    q = post.env['query']
+    h = st.heap[self_.ref]
+    res = ex.truth(st, result)
+    io = h['image_opts']
+    transparent = ex.truth(st, ex.opaque_field(st, io, 'transparent'))
+    op = h['opacity']
+    cov, rr = h['coverage'], h['res_range']
+    yield ('opaque_not_transparent', z3.Implies(res, z3.Not(transparent)), 'is_opaque => the source image has no transparency')
+    yield ('opaque_full_opacity', z3.Implies(res, z3.Or(op.isnone, op.val.t >= z3.RealVal('0.99'))),
+           'is_opaque => no opacity, or an opacity of (practically) 1: a faded or invisible layer does not hide the layers below')
+    conts = [e for i, e in T.evs(st, 'contains')]
+    cov_ok = z3.Not(ex.truth(st, cov))
+    rr_ok = z3.Not(ex.truth(st, rr))
+    for e in conts:
+        if e.recv is not None and e.recv.t.eq(cov.val.t) and len(e.args) == 2:
+            cov_ok = z3.Or(cov_ok, z3.And(ex.truth(st, e.result), eq(e.args[0], ex.opaque_field_at(st, e, q, 'bbox')),
+                                          eq(e.args[1], ex.opaque_field_at(st, e, q, 'srs'))))
+        if e.recv is not None and e.recv.t.eq(rr.val.t) and len(e.args) == 3:
+            rr_ok = z3.Or(rr_ok, ex.truth(st, e.result))
+    yield ('opaque_inside_coverage', z3.Implies(res, cov_ok), 'is_opaque => no coverage, or the coverage contains the whole query bbox')
+    yield ('opaque_inside_res_range', z3.Implies(res, rr_ok), 'is_opaque => no resolution range, or the range contains the query')
+
+
+contract(W + 'WMSSource.is_opaque', props=['C14'],
+         types=dict(query='opaque'), returns='bool', default_callee='opaque',
+         opaque_fields=dict(c17_upstream.QF), stable_fields=['bbox', 'size', 'srs', 'transparent'],
+         opaque_spec={'contains': {'returns': 'bool', 'pure': True}},
+         trace=[_is_opaque_spec])
+
+
+# ---- combining adjacent upstream requests ---------------------------------------------------------------------------------
+def _compatible_spec(ex, st, post, result):
+    """two sources may be merged into ONE upstream request only if that cannot change the picture"""
+    import z3
+    from pyvc.values import eq
+    a, b = post.env['self'], post.env['other']
+    ha, hb = st.heap[a.ref], st.heap[b.ref]
+    res = ex.truth(st, result)
+    yield ('combine_only_without_opacity', z3.Implies(res, z3.And(ha['opacity'].isnone, hb['opacity'].isnone)),
+           'combined only if NEITHER source has an opacity (opacity is applied per source image, not to the combination)')
+    sa, sb = st.heap[ha['supported_srs'].ref]['supported_srs'], st.heap[hb['supported_srs'].ref]['supported_srs']
+    yield ('combine_same_srs_and_formats', z3.Implies(res, z3.And(eq(sa, sb), eq(ha['supported_formats'], hb['supported_formats']))),
+           'combined only with equal supported SRS and format lists')
+    yield ('combine_same_colour_key_and_coverage',
+           z3.Implies(res, z3.And(eq(ha['transparent_color'], hb['transparent_color']),
+                                  eq(ha['transparent_color_tolerance'], hb['transparent_color_tolerance']),
+                                  eq(ha['coverage'], hb['coverage']))),
+           'combined only with the same transparent colour key and the same coverage')
+    dims = T.evs(st, 'dimensions_for_params')
+    g = z3.BoolVal(True)
+    if len(dims) == 2:
+        g = eq(dims[0][1].result, dims[1][1].result)
+    yield ('combine_same_forwarded_dimensions', z3.Implies(res, z3.And(z3.BoolVal(len(dims) == 2), g)),
+           'combined only if both forward the same dimension parameters')
+
+
+contract(W + 'WMSSource._is_compatible', props=['C14'],
+         types=dict(other='obj:mapproxy.source.wms:WMSSource', query='opaque'), returns='bool', default_callee='opaque',
+         inline=['__eq__'], opaque_spec={'dimensions_for_params': {'pure': True}},
+         trace=[_compatible_spec])
